@@ -38,3 +38,23 @@ func verifCipherEq(w *aead.Wrapper, a, b string) bool {
 	pb, ok2 := verifDecrypt(w, b)
 	return ok1 && ok2 && bytes.Equal(pa, pb)
 }
+
+type verifFaultyWrapper struct{ *aead.Wrapper }
+
+func (w *verifFaultyWrapper) Encrypt(ctx context.Context, pt []byte, opt ...wrapping.Option) (*wrapping.BlobInfo, error) {
+	if verifFailsOn("Wrapper.Encrypt fails", string(pt)) {
+		return nil, &verifInjected{}
+	}
+	return w.Wrapper.Encrypt(ctx, pt, opt...)
+}
+
+type verifInjected struct{}
+
+func (e *verifInjected) Error() string { return "injected encrypt failure" }
+
+func verifFaulty(w *aead.Wrapper) wrapping.Wrapper {
+	if w != nil && verifHasExtFail("Wrapper.Encrypt fails") {
+		return &verifFaultyWrapper{w}
+	}
+	return w
+}
